@@ -70,7 +70,7 @@ def units(tier, seed):
             us.append({"kind": "agg", "n": 6, "runs": runs, "full": False})
         for n in (12, 40):
             us.append({"kind": "aggdev", "n": n, "seed": seed})
-    years = [1999, 2000, 2023, 2024]
+    years = [1999, 2000, 2023, 2024, 1900, 2100]      # 1900 and 2100: divisible by 4 but not leap years
     for y in years:
         for m in range(1, 13):
             us.append({"kind": "m2d", "year": y, "month": m, "tier": tier})
@@ -81,6 +81,9 @@ def units(tier, seed):
               1023, 1024, 1025, 2047, 2048, 2049, 4095, 4096, 4097]
     for i in range(0, len(ladder), 4):
         us.append({"kind": "aggladder", "ns": ladder[i:i + 4], "seed": seed})
+    # dense range: every length (a defect may sit at one particular size)
+    for lo in range(7, 131, 31):
+        us.append({"kind": "aggladder", "ns": list(range(lo, min(131, lo + 31))), "seed": seed, "dense": True})
     for n in ([1000, 20011] if tier == "quick" else [1000, 100003, 1000003]):
         for runlen in (1, 7, 366):
             if n > 200000 and runlen != 366:
@@ -511,7 +514,7 @@ def run_unit(unit, ctx):
     k = unit["kind"]
     if k == "aggladder":
         for n in unit["ns"]:
-            for runlen in (1, 3, 31):
+            for runlen in ((3,) if unit.get("dense") else (1, 3, 31)):
                 run_aggbig({"n": n, "runlen": runlen, "seed": unit["seed"]}, ctx)
         return
     if k == "aggbig":
